@@ -117,12 +117,8 @@ example : gcTraceTable.length ≥ 20 ∧ (gcTraceTable.filter (fun e => !e.handl
 
 /-! ### Non-vacuity -/
 
-/-- A live 2-cycle (one outside handle) with a garbage 2-cycle hanging on it. -/
-def exampleHeap : Heap :=
-  [{ id := 0, edges := [1], views := 0, ext := 1, visits := 0, mark := false },
-   { id := 1, edges := [0], views := 0, ext := 0, visits := 0, mark := false },
-   { id := 2, edges := [3], views := 0, ext := 0, visits := 0, mark := false },
-   { id := 3, edges := [2, 0], views := 0, ext := 0, visits := 0, mark := false }]
+/- `exampleHeap` (RsjProofs/GcCorollaries.lean): a live 2-cycle 0 ⇄ 1 with one outside handle on 0,
+   and a garbage 2-cycle 2 ⇄ 3 with a handle 3 → 0 hanging on it. -/
 
 example : WF exampleHeap ∧ Clean exampleHeap := by
   refine ⟨by unfold WF; decide, ?_⟩
